@@ -116,6 +116,19 @@ def run(ctx):
                 okw = x.target == T.attr(T.idx(b2, T.num(1)), "gt") and x.value == T.idx(ret, T.idx(b2, T.num(0)))
         ctx.check(okw, "KEY", f"{q.qualname} / KEY / reference value of interface i read under key i of the returned dictionary [{mode}]", ctx.where(q),
                   "big_edge.gt = result[position]", "the write-back does not read the returned dictionary under the interface's list position")
+        # ... and under every normalisation that returns at all (None is the default): no return before the write-back
+        sq0 = sym.summarize(repo, q.qualname, bindings={P[2]: flag, P[3]: T.NONE})
+        ctx.config(f"integrate={flag[1]}, normalize=None")
+        ret0 = sq0.ret()
+        okw0 = False
+        for x in sq0.stores("gt"):
+            l2 = x.loops()
+            if len(l2) == 1 and l2[0][2] == T.call("enumerate", (big_edges,)) and not x.conds():
+                b2 = ("bv", l2[0][1])
+                okw0 = x.target == T.attr(T.idx(b2, T.num(1)), "gt") and x.value == T.idx(ret0, T.idx(b2, T.num(0)))
+        ctx.check(okw0, "KEY", f"{q.qualname} / KEY / reference values are written back without normalisation too [{mode}]", ctx.where(q),
+                  "normalize=None: big_edge.gt = result[position] for every interface before returning",
+                  "with normalize=None the function returns without storing the intensities as the interfaces' reference values (gt keeps its previous content)")
         ctx.clause("'average' normalisation divides every value by the mean of the same dictionary (mean one, degree 0 in the image)")
         okn = False
         if ret[0] == "call" and ret[1] == "dict" and ret[2][0][0] == "map":
